@@ -3,8 +3,14 @@
 Executed with /venv/bin/python, PYTHONPATH=<repo>/src and the PYTHONHASHSEED chosen by harness/c12.py.
 stdin : {"seq": [item, …], "statediff": bool}
    item = {"entry": "TEST"|"PYJMC"|"CLI", "id": str, "src": str, "header": str|None, "cert": str|None,
-           "envs": [str], "pack_format": str, "namespace": str, "existing": bool}
-     TEST  : jmc.compile.test_compile.JMCTestPack (cert None = the class's default jmc.txt)
+           "envs": [str], "pack_format": str, "namespace": str, "existing": bool,
+           "files": {relpath: text}   further project files next to main.jmc (imported .jmc files, included .hjmc files, #copy folders),
+           "pre_files": {relpath: text}  files already present in the output folder (CLI with existing=true: stale output, #static folders),
+           "dir": str   project folder name (default: id) - two pool entries with the same dir are two EDITS of one project}
+       optional: "keep_field": Header field whose reset in Header.__clear is UNDONE (self-test: simulates a missing / aliased reset),
+                 "keep_pyenv": true (IsolatedEnvironment.reset disabled), "trace": {"sites": [...], "fields": [...]} (reach measurement)
+     TEST  : jmc.compile.test_compile.JMCTestPack (cert None = the class's default jmc.txt); cwd = the project folder, so that
+             imports / #include of the virtual main file resolve to the project's own files
      PYJMC : jmc.api.PyJMC on files written to <root>/<id>/ (cert None = its default dict)
      CLI   : what terminal_commands.compile_ does: Header().envs = envs; compile_jmc(config) on <root>/<id>/
              (existing = the namespace folder with jmc.txt `cert` is already there; else a fresh output folder)
@@ -43,39 +49,50 @@ def norm(s: str, root: str) -> str:
     return s.replace(root, "<ROOT>")
 
 
-def run_item(item, root: Path, counter):
+def run_item(item, root: Path, counter, argstore=None):
+    """argstore (dict) = keep the ARGUMENT OBJECTS of a project (the envs list, the jmc.txt dict, the JMCTestPack object) and pass the very
+    same objects when the project is compiled again in this process, as an API user looping over rebuilds would"""
     from jmc.compile.header import Header
-    proj = root / f"{item['id']}"
-    if proj.exists():           # the same project again in this process (histories A,B1,A,B2,…): give it a new folder name of
-        counter[item["id"]] = counter.get(item["id"], 0) + 1        # the same length so that diagnostics stay comparable
-        proj = root / f"{item['id']}"
+    proj = root / f"{item.get('dir') or item['id']}"
+    if proj.exists():           # the same project (or another edit of it) again in this process: same folder, rebuilt from scratch
+        counter[item["id"]] = counter.get(item["id"], 0) + 1
         shutil.rmtree(proj)
     signal.alarm(20)
     try:
         entry = item["entry"]
-        if entry == "TEST":
-            from jmc.compile.test_compile import JMCTestPack
-            p = JMCTestPack(namespace=item.get("namespace", "TEST"))
-            p.set_jmc_file(item["src"])
-            if item.get("header") is not None:
-                p.set_header_file(item["header"])
-            if item.get("cert") is not None:
-                p.set_cert(item["cert"])
-            p.config.pack_format = item.get("pack_format", "-1")
-            if item.get("envs"):
-                p.set_envs(list(item["envs"]))
-            return {"ok": True, "files": dict(p.build().built)}
         proj.mkdir(parents=True)
+        for rel, text in (item.get("files") or {}).items():
+            f = proj / rel
+            f.parent.mkdir(parents=True, exist_ok=True)
+            f.write_text(text, encoding="utf-8")
+        if entry == "TEST":
+            os.chdir(proj)
+            from jmc.compile.test_compile import JMCTestPack
+            store = argstore.setdefault(item["id"], {}) if argstore is not None else {}
+            p = store.get("pack")
+            if p is None:
+                p = store["pack"] = JMCTestPack(namespace=item.get("namespace", "TEST"))
+                p.set_jmc_file(item["src"])
+                if item.get("header") is not None:
+                    p.set_header_file(item["header"])
+                if item.get("cert") is not None:
+                    p.set_cert(item["cert"])
+                p.config.pack_format = item.get("pack_format", "-1")
+                if item.get("envs"):
+                    store["envs"] = list(item["envs"])
+                    p.set_envs(store["envs"])
+            return {"ok": True, "files": dict(p.build().built)}
         (proj / "main.jmc").write_text(item["src"], encoding="utf-8")
         if item.get("header") is not None:
             (proj / "main.hjmc").write_text(item["header"], encoding="utf-8")
         if entry == "PYJMC":
             from jmc.api import PyJMC
             kw = {}
+            store = argstore.setdefault(item["id"], {}) if argstore is not None else {}
             if item.get("cert") is not None:
-                kw["jmc_txt"] = cert_dict(item["cert"])
+                kw["jmc_txt"] = store.setdefault("jmc_txt", cert_dict(item["cert"]))
             pj = PyJMC(item.get("namespace", "TEST"), "d", item.get("pack_format", "48"), str(proj / "main.jmc"),
-                       envs=list(item.get("envs") or []), **kw)
+                       envs=store.setdefault("envs", list(item.get("envs") or [])), **kw)
             return {"ok": True, "files": {Path(k).as_posix(): v for k, v in pj.files.items()}}
         if entry == "CLI":
             from jmc.terminal import GlobalData, Configuration
@@ -84,11 +101,16 @@ def run_item(item, root: Path, counter):
             ns = item.get("namespace", "TEST")
             if item.get("existing"):
                 (out / "data" / ns).mkdir(parents=True)
-                (out / "data" / ns / "jmc.txt").write_text(item.get("cert") or "", encoding="utf-8")
+                if item.get("cert") is not None:       # existing folder without jmc.txt: read_cert refuses to touch it
+                    (out / "data" / ns / "jmc.txt").write_text(item["cert"], encoding="utf-8")
+                for rel, text in (item.get("pre_files") or {}).items():
+                    f = out / rel
+                    f.parent.mkdir(parents=True, exist_ok=True)
+                    f.write_text(text, encoding="utf-8")
             cfg = Configuration(GlobalData(), namespace=ns, description="d", pack_format=item.get("pack_format", "48"),
                                 target=proj / "main.jmc", output=out)
             Header().envs = list(item.get("envs") or [])
-            compile_jmc(cfg)
+            compile_jmc(cfg, debug=True)        # as terminal_commands.compile_ does (evaluates repr(datapack) for the log)
             files = {}
             for f in sorted(out.rglob("*")):
                 if f.is_file():
@@ -102,6 +124,7 @@ def run_item(item, root: Path, counter):
         return {"ok": False, "exc": type(e).__name__, "msg": str(e)[:3000]}
     finally:
         signal.alarm(0)
+        os.chdir(root)
 
 
 # ----------------------------------------------------------------------------- global-state fingerprint
@@ -191,6 +214,126 @@ def global_state():
     return out
 
 
+# ----------------------------------------------------------------------------- self-test and reach instrumentation
+
+def install_keep_field(field):
+    """Undo the reset of ONE Header field: Header.__clear runs, then the field gets back the object it held before.
+    This is what a missing reset, or a reset that re-installs a shared object, looks like to later compiles."""
+    from jmc.compile.header import Header
+    raw = Header.__dict__["_Header__clear"]
+    orig = raw.__func__ if isinstance(raw, staticmethod) else raw
+    missing = object()
+
+    def kept(obj):
+        old = getattr(obj, field, missing)
+        orig(obj)
+        if old is not missing:
+            setattr(obj, field, old)
+    Header._Header__clear = staticmethod(kept)
+
+
+def install_keep_pyenv():
+    from jmc.compile.command.builtin_function.utils.isolated import IsolatedEnvironment
+    if hasattr(IsolatedEnvironment, "reset"):
+        IsolatedEnvironment.reset = lambda self: None
+
+
+class Tracer:
+    """Counts, per compile, which set-iteration sites of the regenerated table were executed and with how many elements,
+    how many elements every set-typed attribute of Header / DataPack / Lexer held, and which Header fields a compile left
+    different from their reset value."""
+
+    def __init__(self, spec):
+        import ast
+        self.sites = []
+        for k, st in enumerate(spec.get("sites") or []):
+            try:
+                code = compile(ast.Expression(ast.parse(st["expr"], mode="eval").body), "<site>", "eval") if st.get("evaluable") else None
+            except SyntaxError:
+                code = None
+            self.sites.append(dict(st, k=k, code=code))
+        self.by_code = {}
+        self.cur = None
+        self.datapacks = []
+        self.set_attrs = spec.get("set_attrs") or {}
+        self.fields = spec.get("fields") or []
+        self.baseline = {}
+
+    def start(self):
+        from jmc.compile.header import Header
+        from jmc.compile.datapack import DataPack
+        Header.clear()
+        h = Header()
+        self.baseline = {f: json.dumps(fingerprint(getattr(h, f, None), 4, frozenset()), sort_keys=True, default=str) for f in self.fields}
+        tr = self
+        orig_init = DataPack.__init__
+
+        def init(self_, *a, **kw):
+            tr.datapacks.append(self_)
+            return orig_init(self_, *a, **kw)
+        DataPack.__init__ = init
+        sys.settrace(self.global_trace)
+
+    def global_trace(self, frame, event, arg):
+        code = frame.f_code
+        hit = self.by_code.get(code)
+        if hit is None:
+            fn = code.co_filename.replace(os.sep, "/")
+            hit = [s for s in self.sites if s["func"] == code.co_name and fn.endswith("/jmc/" + s["file"])
+                   and code.co_firstlineno <= s["line"]]
+            self.by_code[code] = hit
+        if not hit:
+            return None
+
+        def local(frame, event, arg):
+            if event == "line" and self.cur is not None:
+                ln = frame.f_lineno
+                for s in hit:
+                    if s["line"] <= ln <= s["end_line"]:
+                        n = -1
+                        if s["code"] is not None:
+                            try:
+                                n = len(eval(s["code"], frame.f_globals, frame.f_locals))
+                            except Exception:  # noqa
+                                n = -1
+                        self.cur["sites"][s["k"]] = max(self.cur["sites"].get(s["k"], -1), n)
+            return local
+        return local
+
+    def begin(self):
+        self.cur = {"sites": {}}
+        self.datapacks.clear()
+
+    def end(self):
+        from jmc.compile.header import Header
+        cur, self.cur = self.cur, None
+        h = Header()
+        cur["mutated"] = [f for f in self.fields
+                          if json.dumps(fingerprint(getattr(h, f, None), 4, frozenset()), sort_keys=True, default=str) != self.baseline[f]]
+        sizes = {}
+        objs = [("Header", h)] + [("DataPack", d) for d in self.datapacks] + [("Lexer", getattr(d, "lexer", None)) for d in self.datapacks]
+        for d in self.datapacks:
+            data = getattr(d, "data", None)
+            if data is not None:
+                objs.append((type(data).__name__, data))
+                for v in list(getattr(data, "__dict__", {}).values()):
+                    if isinstance(v, dict):
+                        objs += [(type(x).__name__, x) for x in v.values() if hasattr(x, "__dict__") or hasattr(x, "__slots__")]
+        for owner, o in objs:
+            for attr, own in self.set_attrs.items():
+                if own != owner or o is None:
+                    continue
+                try:
+                    v = getattr(o, attr)
+                except Exception:  # noqa
+                    continue
+                if isinstance(v, (set, frozenset)):
+                    sizes[f"{owner}.{attr}"] = max(sizes.get(f"{owner}.{attr}", 0), len(v))
+        cur["set_sizes"] = sizes
+        self.datapacks.clear()
+        return cur
+
+
 def main():
     import logging
     logging.disable(logging.CRITICAL)
@@ -213,11 +356,27 @@ def main():
             pass
         from jmc.compile.header import Header
         Header()                # the singleton exists before the first snapshot: only CHANGED fields are reported
+        if req.get("keep_field"):
+            install_keep_field(req["keep_field"])
+        if req.get("keep_pyenv"):
+            install_keep_pyenv()
+        tracer = Tracer(req["trace"]) if req.get("trace") else None
+        if tracer:
+            tracer.start()
         before = global_state() if req.get("statediff") else None
         counter = {}
+        argstore = {} if req.get("reuse_args") else None
         changed = set()
         for item in req["seq"]:
-            r = run_item(item, root, counter)
+            if tracer:
+                tracer.begin()
+            r = run_item(item, root, counter, argstore)
+            if argstore is not None:        # did the compile change the objects it was given?
+                st = argstore.get(item["id"], {})
+                r["args_mutated"] = [n for n, spec in (("envs", list(item.get("envs") or [])), ("jmc_txt", cert_dict(item.get("cert") or "")))
+                                     if n in st and st[n] != spec]
+            if tracer:
+                r["trace"] = tracer.end()
             if r.get("ok"):
                 r["files"] = {norm(k, str(root)): norm(v, str(root)) for k, v in r["files"].items()}
             else:
@@ -230,6 +389,7 @@ def main():
         if before is not None:
             diff = sorted(changed)
     finally:
+        sys.settrace(None)
         os.chdir(cwd)
         shutil.rmtree(root, ignore_errors=True)
     sys.stdout = real_stdout
